@@ -6,6 +6,7 @@ import (
 	"fmt"
 	"io"
 	"reflect"
+	"time"
 
 	"github.com/parquet-go/parquet-go"
 
@@ -157,6 +158,22 @@ type Embedded struct {
 	A int32 `parquet:"a"`
 	EmbMiddle
 	E float64 `parquet:"e,optional"`
+}
+
+// Times: the documented time.Time / time.Duration mappings (specialised write
+// paths on both the typed and the reflection side).
+type Times struct {
+	T   time.Time      `parquet:"t"`
+	Tms time.Time      `parquet:"tms,timestamp"`
+	Tus time.Time      `parquet:"tus,timestamp(microsecond)"`
+	D   time.Time      `parquet:"d,date"`
+	OT  time.Time      `parquet:"ot,optional"`
+	PT  *time.Time     `parquet:"pt,timestamp(millisecond)"`
+	Du  time.Duration  `parquet:"du,time"`
+	Dms time.Duration  `parquet:"dms,time(millisecond)"`
+	PD  *time.Duration `parquet:"pd,time(microsecond)"`
+	LT  []time.Time    `parquet:"lt,list"`
+	N   int64          `parquet:"n"`
 }
 
 type Deep struct {
@@ -577,4 +594,5 @@ func init() {
 	register[Deep]("Deep")
 	register[DictLists]("DictLists")
 	register[Embedded]("Embedded")
+	register[Times]("Times")
 }
